@@ -754,7 +754,15 @@ func c18RHPClose(e *sim.Env) {
 	}
 	r.contractor.gate = g.enter
 	r.sectors.gate = g.enter
+	e.WithSchedule(600, func() { c18RHPCloseBody(e, r, g, pr, maxBlock, ak, wres.Root, data) })
+	time.Sleep(maxBlock + time.Second)
+	pr.raise(e)
+	r.checkHandlerPanics("close")
+	e.Nontrivial = true
+	e.Probe("rhp_close_runs")
+}
 
+func c18RHPCloseBody(e *sim.Env, r *rhpRig, g *c18Gate, pr *c18Problems, maxBlock time.Duration, ak types.PrivateKey, root types.Hash256, data []byte) {
 	n := e.Range(1, 10)
 	window := time.Duration(e.Range(0, 3000)) * time.Millisecond
 	var wg sync.WaitGroup
@@ -779,9 +787,9 @@ func c18RHPClose(e *sim.Env) {
 				_, x.err = rhp4.RPCWriteSector(ctx, r.tr, r.prices, r.token(ak), bytes.NewReader(data), uint64(len(data)))
 			case 2:
 				var buf bytes.Buffer
-				_, x.err = rhp4.RPCReadSector(ctx, r.tr, r.prices, r.token(ak), &buf, wres.Root, 0, 64)
+				_, x.err = rhp4.RPCReadSector(ctx, r.tr, r.prices, r.token(ak), &buf, root, 0, 64)
 			case 3:
-				_, x.err = rhp4.RPCVerifySector(ctx, r.tr, r.prices, r.token(ak), wres.Root)
+				_, x.err = rhp4.RPCVerifySector(ctx, r.tr, r.prices, r.token(ak), root)
 			}
 		}()
 	}
@@ -822,15 +830,10 @@ func c18RHPClose(e *sim.Env) {
 		e.Logf("rpc after close: %v", err)
 	}
 	var buf bytes.Buffer
-	if _, err := rhp4.RPCReadSector(context.Background(), r.tr, r.prices, r.token(ak), &buf, wres.Root, 0, 64); err == nil {
+	if _, err := rhp4.RPCReadSector(context.Background(), r.tr, r.prices, r.token(ak), &buf, root, 0, 64); err == nil {
 		e.Violationf("C18.rhp-close", "rpc-after-close", "RPCReadSector succeeded after Server.Close returned")
 	}
 	wg.Wait()
-	time.Sleep(maxBlock + time.Second)
-	pr.raise(e)
-	r.checkHandlerPanics("close")
-	e.Nontrivial = true
-	e.Probe("rhp_close_runs")
 }
 
 // ---------------------------------------------------------------------------
@@ -919,47 +922,49 @@ func c18WalletClose(e *sim.Env) {
 		x = tree.Extend(e, x, gen.BlockOpts{Now: now, Miner: types.VoidAddress, MinGap: true})
 		pre = append(pre, x)
 	}
-	go func() {
-		defer close(minerDone)
-		for _, b := range pre {
-			select {
-			case <-stopMining:
-				return
-			case <-time.After(gap):
+	e.WithSchedule(600, func() {
+		go func() {
+			defer close(minerDone)
+			for _, b := range pre {
+				select {
+				case <-stopMining:
+					return
+				case <-time.After(gap):
+				}
+				s.cm.AddBlocks([]types.Block{b.Block})
 			}
-			s.cm.AddBlocks([]types.Block{b.Block})
-		}
-	}()
-	time.Sleep(closeAt)
-	e.Fault("close-during-rebroadcast")
-	g.mu.Lock()
-	if g.cur > 0 {
-		e.Probes["wallet_closed_while_rebroadcasting"] = 1
-	}
-	g.mu.Unlock()
-	done := make(chan struct{})
-	go func() {
-		w.Close()
+		}()
+		time.Sleep(closeAt)
+		e.Fault("close-during-rebroadcast")
 		g.mu.Lock()
-		g.closed = true
-		cur := g.cur
-		g.mu.Unlock()
-		if cur != 0 {
-			pr.add("C18.wallet-close", "close-returned-early", fmt.Sprintf("Wallet.Close returned while the rebroadcast loop was inside %d store / syncer calls", cur))
+		if g.cur > 0 {
+			e.Probes["wallet_closed_while_rebroadcasting"] = 1
 		}
-		close(done)
-	}()
-	bound := time.Duration(blocks+4)*maxBlock*2 + 10*time.Second
-	select {
-	case <-done:
-	case <-time.After(bound):
-		e.Violationf("C18.wallet-close", "close-hangs", "Wallet.Close has not returned %v after it was called", bound)
-	}
-	pr.raise(e)
-	<-minerDone
-	close(stopMining)
-	time.Sleep(debounce + maxBlock + time.Second)
-	pr.raise(e)
+		g.mu.Unlock()
+		done := make(chan struct{})
+		go func() {
+			w.Close()
+			g.mu.Lock()
+			g.closed = true
+			cur := g.cur
+			g.mu.Unlock()
+			if cur != 0 {
+				pr.add("C18.wallet-close", "close-returned-early", fmt.Sprintf("Wallet.Close returned while the rebroadcast loop was inside %d store / syncer calls", cur))
+			}
+			close(done)
+		}()
+		bound := time.Duration(blocks+4)*maxBlock*2 + 10*time.Second
+		select {
+		case <-done:
+		case <-time.After(bound):
+			e.Violationf("C18.wallet-close", "close-hangs", "Wallet.Close has not returned %v after it was called", bound)
+		}
+		pr.raise(e)
+		<-minerDone
+		close(stopMining)
+		time.Sleep(debounce + maxBlock + time.Second)
+		pr.raise(e)
+	})
 	w.Close() // idempotent
 	e.Nontrivial = true
 	e.Probe("wallet_close_runs")
@@ -967,9 +972,14 @@ func c18WalletClose(e *sim.Env) {
 }
 
 func runC18(e *sim.Env) {
+	// in the lock-yield flavour the scenarios without a simulated network run
+	// with every Lock / Unlock of a coreutils mutex as a seeded scheduling
+	// point; the two network scenarios keep the runtime's order (hundreds of mux
+	// and gateway goroutines per run make lock-level scheduling there too slow
+	// for the run counts these scenarios need)
 	switch e.Pick(2, 5, 4, 2, 2) {
 	case 0:
-		c18ThreadGroup(e)
+		e.WithSchedule(600, func() { c18ThreadGroup(e) })
 	case 1:
 		c18Inflight(e)
 	case 2:
@@ -983,11 +993,11 @@ func runC18(e *sim.Env) {
 
 func init() {
 	register(&Prop{
-		ID: "C18", Run: runC18, Quick: 4000, Thorough: 120000, Level: "exploration",
+		ID: "C18", Run: runC18, Flavour: "instrumented", Quick: 4000, Thorough: 120000, Level: "exploration",
 		Rule:        "one run = one drawn scenario. threadgroup: 1-12 threads (Add / AddContext / WithContext with drawn start and hold times, several at the same instant as a Stop) and 1-3 Stop callers; Stop returns only with no added thread live, never hangs once threads end, Add is refused exactly when Done is closed, contexts are cancelled. syncer-inflight: a real serving node with drawn MaxInflightRPCs {1,2,3,5,8,64,0,-1}, MaxInflightRPCsPerSubnet {0,-1,1,2,3,4,6,10,256} and subnet prefix {/32,/24,/16,/8,/0, out of range}, 1-6 real client syncers in drawn subnets each firing 1-12 tagged SendV2Blocks requests at drawn offsets; the server's ChainManager wrapper blocks each for its drawn time (5ms-3s) and counts concurrency per peer and per subnet (never above the limits); when no client gives up early and the subnet limit is out of reach every request is answered exactly once (back-pressure, no drops); afterwards a second wave sized exactly to the limits must be admitted all at once (slots returned), then Close; 1 run in 3 closes mid-burst instead. Close must return within the longest handler + 22s, only with no handler running, Run returns, later Connect fails, no handler starts afterwards. syncer-peercap: drawn MaxInboundPeers {0,1,2,3,5,8} / MaxOutboundPeers {0..4}, cap+1..cap+12 clients connecting (2 runs in 3 at the same instant, some churning) and 0-8 known listening nodes for the peer loop; at every 25ms poll the live inbound / outbound peers stay within the caps. rhp-close: real rhp4.Server with 1-10 concurrent RPCs whose contractor / sector-store calls block for drawn times, 1-2 concurrent Close calls at a drawn instant: Close returns within bound, only with no handler inside the host's stores, none enters afterwards, later RPCs fail. wallet-close: real wallet with blocking store / syncer during rebroadcast while reorg notifications keep arriving; Close returns, with the rebroadcast loop outside every call, and no call follows; distinct = (scenario, limit configuration, fault kinds); all completed runs non-trivial",
 		Real:        []string{"threadgroup.ThreadGroup", "syncer.Syncer with gateway + mux on both ends", "rhp4.Server + client RPC functions", "wallet.SingleAddressWallet", "chain.Manager"},
 		Stub:        []string{"network: simnet / simrhp in-memory transports", "blocking ChainManager / contractor / sector store / wallet store / syncer wrappers (the observation points)", "disk: simdisk.DB"},
-		Assumptions: []string{"goroutine wake-up order is the single-P runtime's, perturbed per seed by drawn delays; lock-level interleavings inside one critical section are not enumerated", "the race-detector schedules named in the property are not part of this check"},
+		Assumptions: []string{"thread-group, RHP-close and wallet-close scenarios run under the seeded lock-level scheduler (instrumented flavour); in the two syncer scenarios goroutine wake-up order is the single-P runtime's, perturbed per seed by drawn delays", "the race-detector schedules named in the property are not part of this check"},
 	})
 }
 
